@@ -53,11 +53,22 @@ def run(ctx, rep):
 
 
 # ------------------------------------------------------------------------------ N1
+def _internal(f: Func) -> bool:
+    return f.parent is not None or (f.name.startswith("_") and not f.name.startswith("__"))
+
+
 def _n1(ctx, rep):
     ef: Effects = effects_for(ctx)
     thorough = ctx.tier == "thorough"
     n_fun = 0
     clean = 0
+    origin_hits = set()
+    called = set()
+    for q, sm in ef.summ.items():
+        called |= set(getattr(sm, "callees", ()))
+        for site in sm.sites:
+            if not site.root:
+                origin_hits |= set(site.origins or ())
     for q, sm in sorted(ef.summ.items()):
         f = ctx.ix.funcs[q]
         if not thorough and not f.module.name.startswith(QUICK_PKGS):
@@ -78,9 +89,21 @@ def _n1(ctx, rep):
                 keep.append(r)
             if not keep:
                 continue
-            # root cause only: propagated writes are reported where they originate
+            # root cause only: propagated writes are reported where they originate - unless the origin is an internal
+            # helper (nested function, leading-underscore function or method): a helper that updates the working copy its
+            # caller hands it is an implementation detail, and the write counts against the first PUBLIC function whose own
+            # parameter reaches it
             if not site.root:
                 continue
+            if _internal(f) and q in called:
+                # an internal helper (nested function, leading-underscore function or method) that is only ever handed
+                # fresh working copies updates nothing a caller of the public API can see: the write is reported only if it
+                # reaches a parameter or the object of some caller
+                reaching = {r for r in keep if (q, "self" if (f.self_name and r[0] == f.self_name) else r[0]) in origin_hits}
+                if not reaching:
+                    rep.info("N1", f, site.node, "internal helper updates its argument in place; every caller hands it storage of its own", node=site.node)
+                    continue
+                keep = sorted(reaching)
             params = sorted({r[0] for r in keep})
             allowed = [p for p in params if (q, p) in ALLOWED]
             params = [p for p in params if (q, p) not in ALLOWED]
